@@ -1,3 +1,304 @@
 import FiberModel.DriverUtil
--- stub driver for C17; replaced when the property's model lands
-def main : IO Unit := pure ()
+import FiberModel.C17.Spec
+/-
+Driver for C17. Case fields (after the id):  cfg  threads  actions  obs
+(see harness/cmd/c17/main.go for the syntax). The model is executed at the harness' granularity:
+an action lets one parked thread perform its pending call (or makes that call fail), then every
+thread that is not at a yield point of the harness runs on until it parks, blocks inside MemoryLock
+or finishes; a countedLock's mutex is handed to its waiters in FIFO order.
+-/
+open DriverUtil C17
+
+structure CaseCfg where
+  st : String
+  life : Nat
+  keep : Option (List String)
+  split : Bool
+  t0 : Nat
+
+structure ThrIn where
+  method : Char
+  key : Char
+  status : Nat
+  body : Bool
+  hdrs : Nat
+  err : Bool
+
+def kvs (s : String) : List (String × String) :=
+  (s.splitOn ";").filterMap fun p => match p.splitOn "=" with
+    | [k, v] => some (k, v) | _ => none
+
+def parseCfg (s : String) : Except String CaseCfg := do
+  let kv := kvs s
+  let get (k : String) : Except String String :=
+    match kv.find? (·.1 == k) with | some p => pure p.2 | none => throw s!"outside-domain: cfg key {k} missing"
+  let st ← get "st"
+  unless st == "X" || st == "M" do throw "outside-domain: st"
+  let some life := (← get "life").toNat? | throw "outside-domain: life"
+  unless life ≥ 1 ∧ life ≤ 100000 do throw "outside-domain: life range"
+  let keep ← (match (← get "keep") with
+    | "all" => pure none
+    | "a" => pure (some ["X-A"])
+    | "m" => pure (some ["X-M", "Set-Cookie"])
+    | "am" => pure (some ["x-a", "X-M", "X-C", "Set-Cookie"])
+    | _ => throw "outside-domain: keep")
+  let sp ← get "split"
+  unless sp == "0" || sp == "1" do throw "outside-domain: split"
+  let some t0 := (← get "t0").toNat? | throw "outside-domain: t0"
+  unless t0 ≥ 1 do throw "outside-domain: t0"
+  pure { st := st, life := life, keep := keep, split := sp == "1", t0 := t0 }
+
+def parseThreads (s : String) : Except String (Array ThrIn) := do
+  if s == "-" then return #[]
+  let mut out := #[]
+  for p in s.splitOn "," do
+    match p.splitOn ":" with
+    | [m, k, st, b, h, e] =>
+      let [mc] := m.toList | throw "outside-domain: method"
+      unless mc == 'G' || mc == 'P' || mc == 'D' do throw "outside-domain: method"
+      let [kc] := k.toList | throw "outside-domain: key"
+      unless kc == '-' || kc == '!' || (kc ≥ 'a' && kc ≤ 'z') do throw "outside-domain: key"
+      let some st := st.toNat? | throw "outside-domain: status"
+      unless st ≥ 200 ∧ st ≤ 599 do throw "outside-domain: status range"
+      unless b == "0" || b == "1" do throw "outside-domain: body"
+      let some h := h.toNat? | throw "outside-domain: hdrs"
+      unless h ≤ 4 do throw "outside-domain: hdrs range"
+      unless e == "0" || e == "1" do throw "outside-domain: err"
+      out := out.push { method := mc, key := kc, status := st, body := b == "1", hdrs := h, err := e == "1" }
+    | _ => throw "outside-domain: thread syntax"
+  if out.size > 64 then throw "outside-domain: too many threads"
+  pure out
+
+/-- Config.Next (safe method) comes first, then the empty key, then KeyHeaderValidate -/
+def reqOf (i : ThrIn) : Req :=
+  if i.method == 'G' || i.key == '-' then { key := none, invalid := false, fails := i.err }
+  else if i.key == '!' then { key := none, invalid := true, fails := i.err }
+  else { key := some i.key.toNat, invalid := false, fails := i.err }
+
+/-- the response the harness' handler produces for thread t (header presets of harness/cmd/c17) -/
+def ownResp (i : ThrIn) (t : Nat) : Spec.Resp :=
+  let v := toString t
+  let hdrs : List (String × String) := match i.hdrs with
+    | 1 => [("X-A", "v" ++ v)]
+    | 2 => [("X-M", "m1-" ++ v), ("X-M", "m2-" ++ v)]
+    | 3 => [("X-C", "a" ++ v ++ ",b, c"), ("X-A", "")]
+    | 4 => [("Set-Cookie", "s=" ++ v ++ "; Path=/"), ("Set-Cookie", "u=1,2; Path=/"), ("X-A", "w" ++ v)]
+    | _ => []
+  { status := i.status, body := if i.body then "body" ++ v else "", hdrs := hdrs }
+
+def watched : List String := ["X-A", "X-M", "X-C", "Set-Cookie"]
+
+inductive HAct | start (t : Nat) | release (t : Nat) | fault (t : Nat) | tick (d : Nat)
+
+def parseAct (n : Nat) (s : String) : Except String HAct := do
+  let num (r : List Char) : Except String Nat :=
+    match (String.ofList r).toNat? with | some v => pure v | none => throw s!"outside-domain: action {s}"
+  match s.toList with
+  | 's' :: r => let t ← num r; if t < n then pure (.start t) else throw "outside-domain: tid"
+  | 'r' :: r => let t ← num r; if t < n then pure (.release t) else throw "outside-domain: tid"
+  | 'f' :: r => let t ← num r; if t < n then pure (.fault t) else throw "outside-domain: tid"
+  | 't' :: r => let d ← num r; if d ≤ 100000 then pure (.tick d) else throw "outside-domain: tick"
+  | _ => throw s!"outside-domain: action {s}"
+
+/-! ### coarse execution -/
+
+def isYield (st : String) (pc : Pc) : Bool :=
+  match pc with
+  | .atHandler | .atHandlerB => true
+  | .atGet1 | .atLock | .atGet2 | .atSet | .atUnlock => st != "M"
+  | _ => false
+
+structure Ex where
+  g : G
+  waitq : List Nat := []
+
+def settle (life : Nat) (st : String) (n : Nat) : Nat → Ex → Ex
+  | 0, x => x
+  | fuel + 1, x =>
+    let newW := (List.range n).filter fun t => (x.g.threads t).pc == .lockAcq && !x.waitq.contains t
+    let x := { x with waitq := x.waitq ++ newW }
+    -- the first waiter whose countedLock is free gets it
+    match x.waitq.find? fun t => ((x.g.locks (x.g.threads t).lk).holder).isNone with
+    | some t =>
+      match stepThr life x.g t with
+      | some g' => settle life st n fuel { g := g', waitq := x.waitq.erase t }
+      | none => x
+    | none =>
+      match (List.range n).find? fun t =>
+          let pc := (x.g.threads t).pc
+          pc != .idle && pc != .done && pc != .lockAcq && !isYield st pc with
+      | some t =>
+        match stepThr life x.g t with
+        | some g' => settle life st n fuel { x with g := g' }
+        | none => x
+      | none => x
+
+def posChar (pc : Pc) : Char :=
+  match pc with
+  | .idle => '-'
+  | .atGet1 | .atGet2 => 'G'
+  | .atLock => 'L'
+  | .atSet => 'S'
+  | .atUnlock => 'U'
+  | .atHandler | .atHandlerB => 'H'
+  | .done => 'D'
+  | _ => 'B'
+
+def positions (n : Nat) (g : G) : String := String.ofList ((List.range n).map fun t => posChar (g.threads t).pc)
+
+def doAct (life : Nat) (st : String) (n : Nat) (x : Ex) : HAct → Except String Ex
+  | .start t =>
+    if (x.g.threads t).pc == .idle then
+      match stepThr life x.g t with
+      | some g' => pure (settle life st n 300 { x with g := g' })
+      | none => throw "outside-domain: start"
+    else throw "outside-domain: start of a started thread"
+  | .release t =>
+    if isYield st (x.g.threads t).pc then
+      match stepThr life x.g t with
+      | some g' => pure (settle life st n 300 { x with g := g' })
+      | none => throw "outside-domain: release"
+    else throw "outside-domain: release of a thread that is not parked (model)"
+  | .fault t =>
+    if st == "M" then throw "outside-domain: fault on the built-in storage/lock"
+    else match stepFault x.g t with
+      | some g' => pure (settle life st n 300 { x with g := g' })
+      | none => throw "outside-domain: fault where no call is pending (model)"
+  | .tick d => pure { x with g := { x.g with now := x.g.now + d } }
+
+/-! ### rendering -/
+
+def hexStr (s : String) : String := B.toHexField (s.toUTF8.toList.map (·.toNat))
+
+def renderHdrs (l : List (String × String)) : String :=
+  if l.isEmpty then "-" else ";".intercalate (l.map fun (n, v) => n ++ "=" ++ hexStr v)
+
+def renderResp (ran : Bool) (cls : String) (r : Spec.Resp) : String :=
+  s!"{r.status}:{if ran then 1 else 0}:{cls}:{hexStr r.body}:{renderHdrs r.hdrs}"
+
+/-- what the model says thread t's result line is -/
+def resultOf (cc : CaseCfg) (ins : Array ThrIn) (t : Nat) (th : Thread) : String :=
+  let i := ins.getD t { method := 'G', key := '-', status := 200, body := false, hdrs := 0, err := false }
+  let own := ownResp i t
+  if th.pc != .done then "stuck" else
+  match th.out with
+  | .pending => "stuck"
+  | .errKey => renderResp th.ran "Ekey" ⟨500, "", []⟩
+  | .errGet1 => renderResp th.ran "Eget1" ⟨500, "", []⟩
+  | .errLock => renderResp th.ran "Elock" ⟨500, "", []⟩
+  | .errGet2 => renderResp th.ran "Eget2" ⟨500, "", []⟩
+  | .errSet => renderResp th.ran "Eset" ⟨500, "", (Spec.record none watched own).hdrs⟩
+  | .errHandler => renderResp th.ran "Ehandler" ⟨i.status, "", []⟩
+  | .own => renderResp th.ran "ok" (Spec.record none watched own)
+  | .replay r =>
+    let ir := ins.getD r i
+    renderResp th.ran "ok" (Spec.record cc.keep watched (ownResp ir r))
+
+/-! ### the implementation's observation -/
+
+def unhex (s : String) : Except String String :=
+  if s == "-" then pure "" else
+  match B.fromHex s with
+  | some bs => pure (String.fromUTF8! (ByteArray.mk (bs.map (·.toUInt8)).toArray))
+  | none => throw "outside-domain: hex"
+
+def parseHdrs (s : String) : Except String (List (String × String)) := do
+  if s == "-" then return []
+  (s.splitOn ";").mapM fun p => match p.splitOn "=" with
+    | [n, v] => do pure (n, ← unhex v)
+    | _ => throw "outside-domain: header syntax"
+
+structure ImplRes where
+  noAnswer : Bool := false
+  status : Nat := 0
+  ran : Bool := false
+  cls : String := ""
+  resp : Spec.Resp := ⟨0, "", []⟩
+
+def parseRes (s : String) : Except String ImplRes := do
+  if s == "panic" || s == "stuck" then return { noAnswer := true }
+  match s.splitOn ":" with
+  | [st, ran, cls, body, hdrs] =>
+    let some st := st.toNat? | throw "outside-domain: obs status"
+    let b ← unhex body
+    let h ← parseHdrs hdrs
+    pure { status := st, ran := ran == "1", cls := cls, resp := ⟨st, b, h⟩ }
+  | _ => throw "outside-domain: obs syntax"
+
+def handleCase (f : List String) : Except String Verdict := do
+  match f with
+  | [id, cfgS, thrS, actS, impl] =>
+    let cc ← parseCfg cfgS
+    let ins ← parseThreads thrS
+    let n := ins.size
+    let acts ← (if actS == "-" then pure [] else (actS.splitOn ",").mapM (parseAct n))
+    if acts.length > 5000 then throw "outside-domain: too many actions"
+    let dflt : ThrIn := { method := 'G', key := '-', status := 200, body := false, hdrs := 0, err := false }
+    let reqF : Nat → Req := fun t => reqOf (ins.getD t dflt)
+    -- model
+    let mut x : Ex := { g := init reqF cc.t0 }
+    let mut poss : List String := []
+    for a in acts do
+      x ← doAct cc.life cc.st n x a
+      poss := positions n x.g :: poss
+    let modelPos := if poss.isEmpty then "-" else ",".intercalate poss.reverse
+    let modelRes := if n == 0 then "-" else
+      ",".intercalate ((List.range n).map fun t => resultOf cc ins t (x.g.threads t))
+    let modelObs := modelPos ++ "|" ++ modelRes
+    -- implementation observation
+    let [implPos, implRes] := impl.splitOn "|" | throw "outside-domain: obs"
+    let iposs := if implPos == "-" then [] else implPos.splitOn ","
+    unless iposs.length == acts.length do throw "outside-domain: position vectors do not match the actions"
+    unless iposs.all (·.length == n) do throw "outside-domain: position vector width"
+    let ires := if implRes == "-" then [] else implRes.splitOn ","
+    unless ires.length == n do throw "outside-domain: results do not match the threads"
+    let resL ← ires.mapM parseRes
+    -- events from the implementation's own trace
+    let mut now := cc.t0
+    let mut before : List Char := List.replicate n '-'
+    let mut evs : List Spec.Ev := []
+    let mut touched : List Nat := []
+    for (a, p) in acts.zip iposs do
+      let after := p.toList
+      match a with
+      | .tick d => now := now + d
+      | .start t =>
+        -- built-in storage/lock: everything up to the handler happens inside this action
+        pure ()
+      | .release t =>
+        let b := before.getD t '-'
+        if b == 'H' then
+          evs := .exec t now :: evs
+          if cc.st == "M" && (reqF t).key.isSome && !(reqF t).fails then evs := .set t now true :: evs
+        if b == 'S' then evs := .set t now true :: evs
+      | .fault t =>
+        let b := before.getD t '-'
+        evs := .faulted t (b == 'S') :: evs
+        if b == 'S' then evs := .set t now false :: evs
+      for t in List.range n do
+        let c := after.getD t '-'
+        if c == 'G' || c == 'L' || c == 'S' || c == 'U' || c == 'B' then
+          if !touched.contains t then touched := t :: touched
+        if c == 'D' && before.getD t '-' != 'D' then evs := .answered t :: evs
+      before := after
+    let evsF := evs.reverse
+    let obsF : Nat → Spec.ThreadObs := fun t =>
+      let r := resL.getD t { noAnswer := true }
+      { req := reqF t, own := ownResp (ins.getD t dflt) t, ran := r.ran, isErr := r.cls != "ok", resp := r.resp,
+        touched := touched.contains t, noAnswer := r.noAnswer }
+    let verdict := Spec.check cc.life cc.keep watched n obsF evsF
+    let spec := verdict.map (·.1)
+    let known := match verdict with | some (_, true) => some "K1" | _ => none
+    -- tags
+    let replays := (List.range n).any fun t => let r := resL.getD t {}; !r.ran && r.cls == "ok" && (reqF t).key.isSome
+    let faults := acts.any fun a => match a with | .fault _ => true | _ => false
+    let blocked := iposs.any (·.contains 'B')
+    let reexec := (List.range n).any fun t => (List.range n).any fun t' =>
+      t < t' && (reqF t).key.isSome && (reqF t).key == (reqF t').key && (resL.getD t {}).ran && (resL.getD t' {}).ran
+    let tags := ["st" ++ cc.st] ++ (if replays then ["replay"] else []) ++ (if faults then ["fault"] else []) ++
+      (if blocked then ["blocked"] else []) ++ (if reexec then ["reexec"] else []) ++
+      (if replays || blocked then ["nt"] else [])
+    pure { id := id, modelObs := modelObs, implObs := impl, spec := spec, known := known, tags := tags }
+  | _ => throw s!"outside-domain: expected 5 fields, got {f.length}"
+
+def main : IO Unit := run handleCase
